@@ -388,7 +388,11 @@ func BigSeacFont(t *sim.Tape) ([]byte, string) { return seacFont(t, true) }
 func seacFont(t *sim.Tape, big bool) ([]byte, string) {
 	f := GenFont(t, 5)
 	if big {
-		for i := 0; len(f.Glyphs) < 110+t.Choose(60); i++ {
+		want := 110 + t.Choose(60)
+		if t.Choose(3) == 0 {
+			want = 250 + t.Choose(90) // around and beyond 256 charstrings
+		}
+		for i := 0; len(f.Glyphs) < want; i++ {
 			g := &type1.Glyph{WidthX: float64(400 + i%50)}
 			g.MoveTo(float64(i), 0)
 			g.LineTo(float64(i+40), 10)
@@ -831,4 +835,38 @@ func SubrFontPair(t *sim.Tape) (ordinary, other []byte) {
 		return file
 	}
 	return mk(4), mk(0)
+}
+
+// SiblingFont returns a new font, sharing no memory with f, that has the same
+// structure as f (glyph names, number of commands and hints, widths) and
+// outlines moved by k units: a different font that looks the same to anything
+// that only counts.
+func SiblingFont(f *type1.Font, k int) *type1.Font {
+	g := *f
+	if f.FontInfo != nil {
+		fi := *f.FontInfo
+		g.FontInfo = &fi
+	}
+	if f.Private != nil {
+		pd := *f.Private
+		pd.BlueValues = append(pd.BlueValues[:0:0], pd.BlueValues...)
+		pd.OtherBlues = append(pd.OtherBlues[:0:0], pd.OtherBlues...)
+		g.Private = &pd
+	}
+	g.Encoding = append([]string(nil), f.Encoding...)
+	g.Glyphs = make(map[string]*type1.Glyph, len(f.Glyphs))
+	for name, gl := range f.Glyphs {
+		n := &type1.Glyph{WidthX: gl.WidthX, WidthY: gl.WidthY}
+		n.HStem = append(n.HStem, gl.HStem...)
+		n.VStem = append(n.VStem, gl.VStem...)
+		for _, c := range gl.Cmds {
+			args := append([]float64(nil), c.Args...)
+			for i := range args {
+				args[i] += float64(k)
+			}
+			n.Cmds = append(n.Cmds, type1.GlyphOp{Op: c.Op, Args: args})
+		}
+		g.Glyphs[name] = n
+	}
+	return &g
 }
